@@ -83,7 +83,10 @@ def parseLoader (w : List Char) : Option (Option (List (Name × Blob))) :=
   | '+' :: r => (parsePairs r).map some
   | _ => none
 
-def parseFs (w : List Char) : Option Disk := if w = ['.'] then some [] else parsePairs w
+def parseFs (cwd w : List Char) : Option Disk := do
+  let c ← dec cwd
+  let fl ← if w = ['.'] then some [] else parsePairs w
+  some ⟨c, fl⟩
 
 def showErr : Err → String
   | .incomplete => "Incomplete" | .brokenRef => "BrokenRef"
@@ -119,9 +122,9 @@ def handle (_ : Unit) (line : String) : Unit × String :=
     | ["dirname", p] => (decS p).map (fun p => enc (dirname p))
     | ["join", a, b] => do some (enc (join (← decS a) (← decS b)))
     | ["aux", m, r] => do some (enc (auxPath (← decS m) (← decS r)))
-    | ["case", o, zf, ld, mask, fs, pl, imgs] => do
+    | ["case", o, zf, ld, mask, cwd, fs, pl, imgs] => do
       some (runCase (← parseOrigin (L o)) (← parseOpt (L zf)) (← parseLoader (L ld)) (← parseMask (L mask))
-        (← parseFs (L fs)) (← parsePayload (L pl)) (← parseNames (L imgs)))
+        (← parseFs (L cwd) (L fs)) (← parsePayload (L pl)) (← parseNames (L imgs)))
     | _ => none
   ((), ans.getD "bad-op")
 
